@@ -275,6 +275,13 @@ def _cat() -> List[Edit]:
         E("C16", "additions-before-first-deleted-line", "node_visitor.py", "                max_line = max(lines_to_remove)", "                max_line = min(lines_to_remove) - 1", "BREAK", "model::splice"),
         E("C16", "second-change-applied-too", "node_visitor.py", "            change = changes[0]\n            additions = change.lines_to_add\n            if additions is not None:", "            change = changes[-1]\n            additions = change.lines_to_add\n            if additions is not None:", "BREAK", "first-change-only"),
         E("C16", "keep-splice-by-slice-assignment", "node_visitor.py", "                lines = [*lines[:max_line], *additions, *lines[max_line:]]", "                lines = lines[:max_line] + list(additions) + lines[max_line:]", "KEEP"),
+        E("C18", "model-priority-not-stored", "options.py", "            yield option_cls(\n                option_cls.parse(value, path), module_path, priority=priority\n            )\n\n    if disable_all_default_error_codes:", "            yield option_cls(option_cls.parse(value, path), module_path)\n\n    if disable_all_default_error_codes:", "BREAK", "layering-model::effective-value"),
+        E("C18", "model-first-match-becomes-last-match", "options.py", "        for instance in instances:\n            if instance.is_applicable_to(module_path):\n                return instance.value\n        raise NotFound", "        for instance in reversed(instances):\n            if instance.is_applicable_to(module_path):\n                return instance.value\n        raise NotFound", "BREAK", "layering-model::effective-value::boolean-option"),
+        E("C18", "model-disable-all-ignores-enabled-codes", "options.py", "        error_codes_to_disable = all_error_codes - enabled_error_codes", "        error_codes_to_disable = all_error_codes", "KEEP"),  # the explicit `code = true` instance is yielded first and the sort is stable
+        E("C18", "model-unknown-key-ignored", "options.py", "            except KeyError:\n                raise InvalidConfigOption(f\"Invalid configuration option {key!r}\")", "            except KeyError:\n                continue", "BREAK", "rejects::unknown-key"),
+        E("C18", "model-int-accepts-bool-again", "options.py", "        if isinstance(data, int) and not isinstance(data, bool):", "        if isinstance(data, int):", "BREAK", "rejects::int-given-bool"),
+        E("C18", "model-recursion-check-dropped", "options.py", "    if path in seen_paths:\n        raise InvalidConfigOption(\"Recursive config inclusion detected\")\n", "", "BREAK", "rejects::recursive-inclusion"),
+        E("C18", "keep-model-sort-key-lambda-to-method", "options.py", "            name: sorted(instances, key=lambda i: i.sort_key())", "            name: sorted(instances, key=lambda inst: inst.sort_key())", "KEEP"),
         E("C16", "keep-reversed-sorted", "node_visitor.py", "lines_to_remove = sorted(lines_to_remove, reverse=True)", "lines_to_remove = list(reversed(sorted(lines_to_remove)))", "KEEP"),
         E("C17", "keep-regex-class-order", "format_strings.py", "(?P<conversion_type>[diouxXeEfFgGcrs%ba])", "(?P<conversion_type>[abcdeEfFgGiorsuxX%])", "KEEP"),
         E("C18", "keep-sort-key-via-locals", "options.py", "        return (\n            not self.from_command_line,  # command line options first\n            self.priority,  # lower priority number first\n            -len(self.applicable_to),  # longest options first\n        )", "        return (\n            not self.from_command_line,\n            self.priority,\n            -len(self.applicable_to),\n        )", "KEEP"),
